@@ -68,6 +68,12 @@ class World:
         if model["rate"] != 0:
             evs.append(EventNBBO(T(self.base, cfg["grid"][0]), self.rate, float(model["rate"]), float(model["rate"])))
         tr.add_events(evs)
+        if (len(cfg["events"]) + cfg["delay"]) % 2 == 0:
+            # every other case: the Transmitter first served another environment configured with a different latency
+            # (the environment under test is a function of its own configuration only)
+            from tradingenv.contracts import ETF as _ETF
+            other = 0.0 if cfg["lat"] else float(min(b - a for a, b in zip(cfg["grid"], cfg["grid"][1:]))) / 2.0
+            TradingEnv(action_space=BoxPortfolio([_ETF("VERIF-OTHER")], low=0.0, high=1.0), transmitter=tr, latency=other)
         # contracts' own discontinuation events are added by TradingEnv (Future.make_events); the model lists them too
         self.own_disc = any(s.get("builtin") == "ES" for s in model["contracts"].values())
         fees = BrokerFees(markup=float(model["markup"]), interest_rate=self.rate, proportional=float(model["prop"]),
@@ -75,7 +81,8 @@ class World:
         self.reward_kind = reward_kind
         reward = {"simple": R.RewardSimpleReturn(), "log": R.LogReturn(**LOG), "pnl": R.RewardPnL(),
                   "logret": R.RewardLogReturn()}[reward_kind]
-        self.env = TradingEnv(action_space=BoxPortfolio(space_contracts, low=-4.0, high=4.0, margin=float(model["thr"])),
+        self.env = TradingEnv(action_space=BoxPortfolio(space_contracts, low=-4.0, high=4.0, margin=float(model["thr"]),
+                                                         fractional=bool(model.get("fractional", True))),
                               reward=reward, transmitter=tr, broker_fees=fees, latency=cfg["lat"],
                               steps_delay=cfg["delay"], initial_cash=float(model["deposit"]))
         self.rewards = []
